@@ -79,7 +79,8 @@ pub fn exec(case: &[i64]) -> Outcome {
   let claims = c.claims();
   let token = Jwt::new(crate::c02::jws(c.kid_text(), c.nonce, &claims, c.sigkey));
   let as02 = C02Case { o_nonce: c.o_nonce, method_id: c.method_id, scope: c.scope, ..crate::c02::base_case() };
-  let opts = JwtPresentationValidationOptions::default().presentation_verifier_options(jws_options(&as02)).earliest_expiry_date(Timestamp::from_unix(c.earliest).unwrap()).latest_issuance_date(Timestamp::from_unix(c.latest).unwrap());
+  // bounds equal to BOUND_UNSET are left unset (the validator then reads the clock): see c02.rs
+  let mut opts = JwtPresentationValidationOptions::default().presentation_verifier_options(jws_options(&as02)); if c.earliest != crate::c02::BOUND_UNSET { opts = opts.earliest_expiry_date(Timestamp::from_unix(c.earliest).unwrap()); } if c.latest != crate::c02::BOUND_UNSET { opts = opts.latest_issuance_date(Timestamp::from_unix(c.latest).unwrap()); }
   let res = JwtPresentationValidator::with_signature_verifier(KeyEcho).validate::<CoreDocument, Jwt, Object>(&token, &doc, &opts);
   // ---- the conditions of the statement, from the case description ----
   let pc = &c.pc;
@@ -139,6 +140,9 @@ fn mutations() -> Vec<(&'static str, Vec<fn(&mut Case)>)> {
     ("exp", vec![|c| c.pc.exp = None, |c| c.pc.exp = Some(3999), |c| c.pc.exp = Some(4000), |c| c.pc.exp = Some(4001), |c| c.pc.exp = Some(TS_MAX), |c| c.pc.exp = Some(TS_MAX + 1), |c| c.pc.exp = Some(TS_MIN - 1)]),
     ("issuance", vec![|c| c.pc.nbf = None, |c| c.pc.nbf = Some(1999), |c| c.pc.nbf = Some(2000), |c| c.pc.nbf = Some(2001), |c| { c.pc.nbf = None; c.pc.iat = Some(2000); }, |c| { c.pc.nbf = None; c.pc.iat = Some(2001); }, |c| c.pc.iat = Some(2001), |c| { c.pc.nbf = Some(2001); c.pc.iat = Some(5); },
       |c| c.pc.nbf = Some(TS_MIN), |c| c.pc.nbf = Some(TS_MIN - 1), |c| c.pc.nbf = Some(TS_MAX + 1), |c| { c.pc.nbf = None; c.pc.iat = Some(TS_MIN - 1); }, |c| c.pc.iat = Some(TS_MAX + 1)]),
+    ("unset-bounds", vec![|c| c.latest = crate::c02::BOUND_UNSET, |c| { c.latest = crate::c02::BOUND_UNSET; c.pc.nbf = Some(crate::c02::Y2200); c.pc.exp = Some(crate::c02::Y2200 + 200); }, |c| { c.latest = crate::c02::BOUND_UNSET; c.pc.nbf = Some(crate::c02::Y2200); c.earliest = crate::c02::Y2200 + 100; c.pc.exp = Some(crate::c02::Y2200 + 200); },
+      |c| c.earliest = crate::c02::BOUND_UNSET, |c| { c.earliest = crate::c02::BOUND_UNSET; c.pc.exp = Some(crate::c02::Y2200); }, |c| { c.earliest = crate::c02::BOUND_UNSET; c.pc.exp = None; }, |c| { c.earliest = crate::c02::BOUND_UNSET; c.latest = crate::c02::BOUND_UNSET; },
+      |c| { c.earliest = crate::c02::BOUND_UNSET; c.latest = crate::c02::BOUND_UNSET; c.pc.exp = Some(crate::c02::Y2200); }, |c| { c.earliest = crate::c02::BOUND_UNSET; c.latest = crate::c02::BOUND_UNSET; c.pc.exp = Some(crate::c02::Y2200); c.pc.nbf = None; c.pc.iat = Some(crate::c02::Y2200); }]),
     ("vp-id", vec![|c| c.pc.vp_id = Some(1), |c| c.pc.vp_id = Some(2), |c| c.pc.vp_id = c.pc.jti.map(|j| j + 1000), |c| { c.pc.vp_id = Some(1); c.pc.jti = None; }, |c| c.pc.jti = None]),
     ("vp-holder", vec![|c| c.pc.vp_holder = Some(1), |c| c.pc.vp_holder = Some(2), |c| c.pc.vp_holder = Some(3), |c| c.pc.vp_holder = Some(1001)]),
     ("payload", vec![|c| c.pc.aud = None, |c| c.pc.p.vcs = 2, |c| c.pc.p.proof = Some(2), |c| c.pc.p.ctx = 2]),
